@@ -95,7 +95,130 @@ def mask_stores(chk, f, region):
                                     if q and q[0] == d:
                                         v = const_val(st["rv"]["op"]) if st["rv"]["k"] == "use" else None
                                         out.append((b2, "first" if p.endswith("first_mut") else "last", v))
+    # idiom 3: slice patterns `[first, .., last]` / `[only]`: stores through `&mut (*slc)[k of n]` (constant index, possibly from the end)
+    def const_index_kind(place):
+        if place[0] == slc and len(place[1]) == 2 and place[1][0] == ("deref",) and place[1][1][0] == "constindex":
+            e = place[1][1]
+            off, from_end = e[1], e[3]
+            if not from_end and off == 0:
+                return "first"
+            if from_end and off == 1:
+                return "last"
+            return "other:constindex=%s%d" % ("-" if from_end else "", off)
+        return None
+    for b in sorted(region):
+        for st in f.stmts(b):
+            if st["k"] != "assign":
+                continue
+            pp = P(st["place"])
+            k = const_index_kind(pp)
+            if k is None and pp[1] == (("deref",),):
+                src = f.single_def(pp[0])
+                if src and src[0] == "assign" and src[3]["k"] in ("ref", "rawptr"):
+                    k = const_index_kind(P(src[3]["place"]))
+            if k is not None:
+                v = const_val(st["rv"]["op"]) if st["rv"]["k"] == "use" else None
+                out.append((b, k, v))
     return slc, out
+
+
+def _len_of_slice(f, op, slc):
+    """is the operand the length of the slice `slc` (PtrMetadata of it, or len() called on it)?"""
+    l = op_local(op)
+    if l is None:
+        return False
+    d = f.single_def(f.copy_root(l))
+    if d and d[0] == "assign" and d[3]["k"] == "unop" and d[3]["op"] == "PtrMetadata":
+        o = d[3]["operand"]
+        ol = op_local(o)
+        if ol is None:
+            return False
+        r = f.copy_root(ol)
+        if r == slc:
+            return True
+        tgt = f.resolve_ptr(r)
+        return tgt is not None and tgt[0] == slc
+    if d and d[0] == "call" and callee_name(d[2]["callee"]).endswith("::len") and d[2]["args"]:
+        al = op_local(d[2]["args"][0])
+        if al is not None:
+            r = f.copy_root(al)
+            tgt = f.resolve_ptr(r)
+            return r == slc or (tgt is not None and tgt[0] == slc)
+    return False
+
+
+def mask_paths(f, region, entry, slc, stores):
+    """Every path through the (loop-free) mask region with the interval of slice lengths it is feasible for and the kinds of stores on it.
+    Length facts come from the edges taken: first_mut()/last_mut() Some/None, is_empty(), and comparisons of the slice length with a constant."""
+    INF = 1 << 62
+    by_block = {}
+    for b, w, v in stores:
+        by_block.setdefault(b, []).append(w)
+
+    def edge_facts(sb):
+        """{target: (lo, hi, [excluded lengths])} constraints for the switch at sb, or {} if it says nothing about the length"""
+        st = f.term(sb)
+        s = an.switch_subject(f, sb)
+        out = {}
+        if s["kind"] == "discr" and s["root"] is not None:
+            d = f.single_def(f.copy_root(s["root"]))
+            if d and d[0] == "call" and callee_name(d[2]["callee"]).split("::")[-1] in ("first_mut", "last_mut", "first", "last"):
+                out[an.variant_target(f, sb, "Some")] = (1, INF, [])
+                out[an.variant_target(f, sb, "None")] = (0, 0, [])
+            return out
+        if s["kind"] == "value" and s["root"] is not None:
+            d = f.single_def(s["root"])
+            t_true, t_false = st["otherwise"], an.edge_target(st, 0)
+            if d and d[0] == "call" and callee_name(d[2]["callee"]).endswith("::is_empty"):
+                out[t_true], out[t_false] = (0, 0, []), (1, INF, [])
+            elif d and d[0] == "assign" and d[3]["k"] == "binop" and d[3]["op"] in ("Eq", "Ne", "Lt", "Le", "Gt", "Ge"):
+                op, l, r = d[3]["op"], d[3]["l"], d[3]["r"]
+                def cint(o):
+                    cc = an.const_of(f, o)
+                    return cc.get("val") if cc is not None and isinstance(cc.get("val"), int) else None
+                c = cint(r) if _len_of_slice(f, l, slc) else None
+                if c is None and _len_of_slice(f, r, slc) and cint(l) is not None:
+                    c = cint(l)
+                    op = {"Lt": "Gt", "Le": "Ge", "Gt": "Lt", "Ge": "Le"}.get(op, op)
+                if isinstance(c, int) and not isinstance(c, bool):
+                    tr = {"Eq": (c, c, []), "Ne": (0, INF, [c]), "Lt": (0, c - 1, []), "Le": (0, c, []), "Gt": (c + 1, INF, []), "Ge": (c, INF, [])}[op]
+                    fl = {"Eq": (0, INF, [c]), "Ne": (c, c, []), "Lt": (c, INF, []), "Le": (c + 1, INF, []), "Gt": (0, c, []), "Ge": (0, c - 1, [])}[op]
+                    out[t_true], out[t_false] = tr, fl
+        return out
+    paths = []
+
+    def walk(b, lo, hi, excl, kinds, depth):
+        if depth > 200 or len(paths) > 500:
+            return
+        if b not in region:
+            paths.append((lo, hi, tuple(kinds)))
+            return
+        kinds = kinds + by_block.get(b, [])
+        t = f.term(b)
+        if t["k"] == "switch":
+            facts = edge_facts(b)
+            for tgt in sorted(set(f.succ.get(b, []))):
+                if f.term(tgt)["k"] == "unreachable":
+                    continue
+                lo2, hi2, ex2 = lo, hi, list(excl)
+                if tgt in facts:
+                    a, z, ex = facts[tgt]
+                    lo2, hi2, ex2 = max(lo, a), min(hi, z), ex2 + ex
+                while lo2 in ex2 and lo2 <= hi2:
+                    lo2 += 1
+                while hi2 in ex2 and lo2 <= hi2:
+                    hi2 -= 1
+                if lo2 > hi2:
+                    continue  # infeasible combination of length tests
+                walk(tgt, lo2, hi2, ex2, kinds, depth + 1)
+        else:
+            nxt = [x for x in f.succ.get(b, [])]
+            if not nxt:
+                paths.append((lo, hi, tuple(kinds)))
+            for tgt in nxt:
+                walk(tgt, lo, hi, excl, kinds, depth + 1)
+    walk(entry, 0, INF, [], [], 0)
+    return paths
 
 
 def check_C13(chk):
@@ -236,11 +359,31 @@ def check_C13(chk):
            "the write is not conditional on any option; paths that avoid it are `?` error returns only (conditional on %s; other work on avoiding paths %s)" % (cond, bad_exits))
 
     # (c) mask targets
-    kinds = sorted(w for b, w, v in stores)
     vals = [v for b, w, v in stores]
-    ok = kinds == ["first", "last"] and all(isinstance(v, dict) and v.get("f") in ("0.0", "-0.0") and v.get("f") == "0.0" for v in vals)
+    zero = bool(stores) and all(isinstance(v, dict) and v.get("f") == "0.0" for v in vals)
+    paths = mask_paths(f, mregion, msw[1], slc, stores) if slc is not None else []
+    bad = []
+    for lo, hi, kinds in paths:
+        ks = sorted(kinds)
+        if any(k.startswith("other") for k in ks):
+            bad.append(("store to an element other than the first or last", lo, hi, ks))
+            continue
+        if len(ks) != len(set(ks)):
+            bad.append(("repeated store", lo, hi, ks))
+            continue
+        if hi == 0:
+            if ks:
+                bad.append(("store on a path that only an empty slice takes", lo, hi, ks))
+            continue
+        one = lo == hi == 1
+        need_first = "first" in ks or (one and "last" in ks)
+        need_last = "last" in ks or (one and "first" in ks)
+        if not (need_first and need_last):
+            bad.append(("first or last element not masked", lo, hi, ks))
+    ok = zero and bool(paths) and not bad
     chk.ob("C13.c", "View::run/mask=first-and-last-set-to-0.0", ok, f.loc(msw[0]),
-           "--mask-monomorphic must store 0.0 to exactly the first and the last flat element (stores found: %s)" % [(w, (v or {}).get("f") if isinstance(v, dict) else v) for b, w, v in stores])
+           "--mask-monomorphic must store 0.0 to exactly the first and the last flat element on every path a non-empty array takes (stores found: %s; %d path(s) through the step; offending: %s)"
+           % ([(w, (v or {}).get("f") if isinstance(v, dict) else v) for b, w, v in stores], len(paths), [(x[0], "len in [%s, %s]" % (x[1], "inf" if x[2] > 1 << 60 else x[2]), x[3]) for x in bad]))
     # no other write to the slice in the mask region
     other_writes = []
     for b in mregion:
